@@ -106,10 +106,10 @@ def run(s):
                 for kw in sorted(kws):
                     for cfg in (kw, {"keyword": kw}, {"keyword": kw, "fname": "user_name.txt"}, {"keyword": kw, "unit": None}):
                         if isinstance(cfg, dict) and "unit" in cfg:
-                            if factor != GPA:
-                                continue
-                            cfg = {"keyword": kw, "unit": "kbar"}
-                            fac = GPA * 10.0
+                            # a unit override of the right dimension on EVERY rule: moduli and pressures in kbar, volumes in nm^3, velocities in m/s
+                            alt, mult = ("kbar", 10.0) if factor == GPA else ("nm^3", 1e-3) if factor == ANG3 else ("m/s", 1e3)
+                            cfg = {"keyword": kw, "unit": alt}
+                            fac = factor * mult
                         else:
                             fac = factor
                         base = RecBase(base_name)
@@ -242,7 +242,16 @@ def round_trip(s, cal):
     cwd = os.getcwd()
     for trial in range(n):
         nt, ntv, npres = int(rnd.randint(3, 9)), int(rnd.randint(12, 25)), int(rnd.randint(3, 9))
+        # size coincidences an axis-by-length shortcut could key on: as many pressures as temperature rows (with and without qha's four extra rows), a square (T,V) grid
+        if trial % 3 == 0:
+            npres = nt + 4
+        elif trial % 3 == 1:
+            nt, ntv = 8, 12
+        else:
+            npres = nt
         tmin, dt = float(rnd.choice([0.0, 50.0, 300.0])), float(rnd.choice([10.0, 100.0, 250.0]))
+        if trial % 3 == 2:
+            tmin, dt = 298.15, 12.25          # grid points that need two decimals
         pmin, dp = float(rnd.choice([0.0, 5.0])), float(rnd.choice([1.0, 2.5]))
         dts = int(rnd.choice([1, 1, 2]))
         calc, t, V, p_gpa = synthetic_calculator(rnd, nt, ntv, npres, tmin, dt, pmin, dp, dts)
